@@ -237,24 +237,28 @@ func VerifHarness_C07_continuity() {
 		r.s.messageOut = nil
 	}
 	expectN := N
-	switch verifConc(ndInt("event", 0, 3)) {
-	case 0:
-		verifCase("disconnected")
-		r.s.Disconnected(r.s)
-	case 1:
-		verifCase("connect")
-		out := make(chan []byte, 4)
-		r.s.onAdmin(connect{messageOut: out, messageIn: nil})
-		if initiator && k == 5 {
-			expectN = N + 1
-			verifAssert(len(out) == 1, "initiator-connect-sends-one-logon")
+	// quick: one event; thorough: two in a row (e.g. disconnect then connect, connect then logon timeout)
+	for e := 0; e < 1+verifTier(); e++ {
+		wasConnected := r.s.IsConnected()
+		switch verifConc(ndInt("event", 0, 3)) {
+		case 0:
+			verifCase("disconnected")
+			r.s.Disconnected(r.s)
+		case 1:
+			verifCase("connect")
+			out := make(chan []byte, 4)
+			r.s.onAdmin(connect{messageOut: out, messageIn: nil})
+			if initiator && !wasConnected {
+				expectN++
+				verifAssert(len(out) == 1, "initiator-connect-sends-one-logon")
+			}
+		case 2:
+			verifCase("logon-timeout")
+			r.s.Timeout(r.s, 2)
+		case 3:
+			verifCase("logout-timeout")
+			r.s.Timeout(r.s, 3)
 		}
-	case 2:
-		verifCase("logon-timeout")
-		r.s.Timeout(r.s, 2)
-	case 3:
-		verifCase("logout-timeout")
-		r.s.Timeout(r.s, 3)
 	}
 	verifAssert(r.st.NextTargetMsgSeqNum() == T, "inbound-counter-unchanged")
 	verifAssert(r.st.NextSenderMsgSeqNum() == expectN, "outbound-counter-unchanged-except-own-logon")
